@@ -62,6 +62,8 @@ type FnCtx struct {
 	havocAllSeen  bool
 	ghostDefs     map[string]bool
 	nq            int
+	named         map[string]string
+	freshObj      map[string]bool // refs allocated in this function (not yet shared: no lock needed)
 	loopHead      map[*ssa.BasicBlock]*State
 	modTargets    []modTarget
 	modDeferred   []string
@@ -128,8 +130,16 @@ func (fc *FnCtx) assumption(s string) { fc.assumptions[s] = true }
 
 // ---------- obligations ----------
 
+var safetyKinds = map[string]bool{"nil": true, "index": true, "slice": true, "divzero": true, "typeassert": true, "panic": true, "nilmap": true, "makeslice": true}
+
 func (fc *FnCtx) oblige(fr *Frame, kind, text, reach, cond string, quant bool, props []string) *Obligation {
 	if fc.quiet > 0 {
+		return nil
+	}
+	if safetyKinds[kind] && fc.con != nil && fc.con.NoSafety {
+		// not checked under this contract: execution continues only where Go would not panic
+		fc.assumption("nosafety: implicit panics in " + shortFnName(fc.fn) + " are not checked by this contract (concurrency/accounting contract only)")
+		fc.sc.assume(tImp(reach, cond))
 		return nil
 	}
 	name := fmt.Sprintf("%s#%s(%s)", fr.prefix, kind, text)
@@ -244,6 +254,7 @@ func (fc *FnCtx) newRef(st *State, hint string) string {
 	fc.sc.assume(tAnd(sx(">", r, "0"), tNot(tSel(a, r))))
 	st.heap["Alloc"] = fc.nameTerm("alloc", "(Array Int Bool)", tStore(a, r, "true"))
 	fc.nonNil[r] = true
+	fc.freshObj[r] = true
 	return r
 }
 
@@ -589,6 +600,16 @@ func (fc *FnCtx) mergeStates(c string, a, b *State) *State {
 			lb = "false"
 		}
 		out.locks[k] = tIte(c, la, lb)
+	}
+	if b.lockSnap != nil {
+		if out.lockSnap == nil {
+			out.lockSnap = map[string]*State{}
+		}
+		for k, v := range b.lockSnap {
+			if _, ok := out.lockSnap[k]; !ok {
+				out.lockSnap[k] = v
+			}
+		}
 	}
 	// defers: keep the longer list; entries carry their own conditions
 	if len(b.defers) > len(out.defers) {
